@@ -53,7 +53,8 @@ def lifecycle(ex, n_workers, allow_exc=()):
             t = e[1]
             st = state.get(t)
             ru0 = run_of(t)
-            same_poll = ru0 is not None and ru0.get("ended_poll") == npoll
+            # the natural end was shown to the loop at most in the fetch it is processing right now
+            same_poll = ru0 is not None and ru0.get("ended") in ("exit", "crash", "ext_stop") and ru0.get("fetches_since_end", 0) <= 1
             if (st in TERMINAL and not same_poll) or st == "paused":
                 # (a natural end in the very poll whose result got the decision is overridden by the decision)
                 if not in_stop_all:
@@ -71,6 +72,11 @@ def lifecycle(ex, n_workers, allow_exc=()):
                 ru["ended_poll"] = npoll
         elif k == "poll":
             npoll = e[1]
+        elif k == "fetch":
+            for t_ in e[1]:
+                ru_ = run_of(t_)
+                if ru_ is not None and ru_.get("ended") in ("exit", "crash", "ext_stop"):
+                    ru_["fetches_since_end"] = ru_.get("fetches_since_end", 0) + 1
         elif k == "stop_all":
             in_stop_all = True
         elif k == "tuning_end":
